@@ -185,7 +185,7 @@ def is_sequence_type(value: str, parser: ta.XPathParserType | None = None) -> bo
                 return key_type.startswith('xs:') and \
                     not key_type.endswith(('+', '*')) and \
                     is_st(key_type) and \
-                    is_st(key_type)
+                    is_st(value_type)
             else:
                 return is_st(st[6:-1])
 
